@@ -11,3 +11,21 @@ Proof.
   intros H. exists (skipn (length new) old). split; [|reflexivity].
   intros E. apply (f_equal (@length Z)) in E. rewrite skipn_length in E. cbn in E. lia.
 Qed.
+
+Lemma read_whole file : read_file None file = file.
+Proof. reflexivity. Qed.
+
+(* a limit the file exceeds hands the parser a PROPER prefix of the document: exactly what a crash while saving leaves, which
+   the loader (rightly, C11) answers with a fresh empty cache: every template in the file is forgotten at the restart *)
+Lemma read_limited_is_a_proper_prefix n file : (n < length file)%nat ->
+  exists rest, rest <> [] /\ file = read_file (Some n) file ++ rest /\ length (read_file (Some n) file) = n.
+Proof.
+  intros H. exists (skipn n file). cbn [read_file]. split; [|split].
+  - intros E. apply (f_equal (@length Z)) in E. rewrite skipn_length in E. cbn in E. lia.
+  - symmetry. apply firstn_skipn.
+  - rewrite firstn_length. lia.
+Qed.
+
+(* within the limit nothing is lost *)
+Lemma read_limited_small n file : (length file <= n)%nat -> read_file (Some n) file = file.
+Proof. intros H. cbn [read_file]. apply firstn_all2. exact H. Qed.
